@@ -420,3 +420,9 @@ func (s *Sim) TasksOf(n *Node) []*Task {
 }
 
 func (t *Task) Point() string { return t.point }
+
+// Parks is the number of times the task has parked at a yield point.
+func (t *Task) Parks() int { return t.nPark }
+
+// Parked reports whether the task is waiting at a yield point right now.
+func (t *Task) Parked() bool { return t.parked }
